@@ -71,3 +71,24 @@ Definition check_case_c04i (dics : list (string * string * list (string * Z))) (
   check_case_c04 dics fuel queries exacts
   && forallb (fun d => index_cert (dec_lex (fst d)) (dec_rows (snd d)) fuel
                        && forallb (fun r => chars_ok_b (fst r)) (dec_rows (snd d))) dics.
+
+(* ---------- correspondence: a hand-made double array fed straight to the reader ----------
+   trie = the array (little-endian units, zero runs compressed); keys = the key set it was laid out from;
+   queries = (text, what common_prefix_iterator returned at offset 0 .. |text|).
+   The verified enumerator must read exactly the key set out of the array and the reader model must agree with the
+   implementation at every offset. *)
+Fixpoint check_raw_offsets (a : list N) (text : list N) (off : nat) (outs : list (list (N * N))) : bool :=
+  match outs with
+  | [] => true
+  | o :: t => list_eqb we_eqb (traverse a text off) o && check_raw_offsets a text (S off) t
+  end.
+
+Definition check_case_c04_raw (trie : string) (fuel : nat) (keys : list (string * N))
+           (queries : list (string * list (list (N * N)))) : bool :=
+  let a := u32s_of_bytes (hexz_bytes trie) in
+  match keys_of a fuel with
+  | None => false
+  | Some ks => perm_b kv_eqb (map (fun k => (hex_bytes (fst k), snd k)) keys) ks
+  end
+  && forallb (fun q => let text := hex_bytes (fst q) in
+                       (length (snd q) =? S (length text))%nat && check_raw_offsets a text 0 (snd q)) queries.
